@@ -208,6 +208,16 @@ func OnFileWrite(f func(path string)) {}
 func PutFile(path, content string) {
 	os.MkdirAll(filepath.Dir(path), 0755)
 	os.WriteFile(path, []byte(content), 0644)
+	os.Chtimes(path, putTime, putTime)
+}
+
+var putTime = time.Unix(1000000000, 0)
+
+// FileWritten reports whether the code under test wrote the file (with whatever content) since the
+// harness put it there: natively the modification time PutFile planted has changed.
+func FileWritten(path string) bool {
+	st, err := os.Stat(path)
+	return err == nil && !st.ModTime().Equal(putTime)
 }
 
 // IsNative reports whether the harness runs natively (replay) rather than under the engine. It may only
